@@ -220,13 +220,14 @@ func engSchema(e *Env) {
 		}
 		mergedA, mergedB := map[string]bool{}, map[string]bool{}
 
+		var forced map[string]bool // when set, exactly these fields are written
 		write := func(n *evNode, create bool) {
 			fields := n.versions[n.active]
 			var parts []string
 			vals := map[string]any{}
 			ids := map[string]int{}
 			for _, f := range fields {
-				if r.Chance(55) {
+				if (forced == nil && r.Chance(55)) || forced[f.name] {
 					serial++
 					g, w, id := evLiteral(r, f, serial)
 					parts = append(parts, f.name+": "+g)
@@ -344,6 +345,37 @@ func engSchema(e *Env) {
 
 		write(a, true)
 		write(b, true)
+		if hi == 0 {
+			// scripted: the peer learns a new version without activating it, merges under the old one, switches to the
+			// new one with SetActiveSchemaVersion, and then receives a write of the field that only the new version has
+			f := evPool[poolAt]
+			poolAt++
+			bPatches++
+			ea, eb := a.patch(ctx, f, true), b.patch(ctx, f, false)
+			if ea != nil || eb != nil {
+				e.violate("harness-schema", fmt.Sprint("scripted patch failed: ", ea, eb), replay)
+				bad = true
+			} else {
+				desc = append(desc, fmt.Sprintf("A: patch add %s (active); B: patch add %s (not active)", f.name, f.name))
+				coqOps = append(coqOps, fmt.Sprintf("Patch [%d%%nat] true", f.no))
+				forced = map[string]bool{"name": true}
+				write(a, true)
+				exchange()
+				if err := b.x.n.DB.SetActiveSchemaVersion(ctx, b.vids[len(b.vids)-1]); err != nil {
+					e.violate("schema-switch-failed", "B: "+err.Error(), replay)
+					bad = true
+				}
+				b.active = len(b.versions) - 1
+				desc = append(desc, "B: set active version to the new one")
+				forced = map[string]bool{f.name: true}
+				write(a, false)
+				forced = nil
+				exchange()
+				if !bad {
+					checkView(b, "after the exchange that follows the switch", docsOf(b, mergedB))
+				}
+			}
+		}
 		nOps := 10 + r.Intn(13)
 		for oi := 0; oi < nOps && !bad; oi++ {
 			switch c := r.Intn(10); {
@@ -367,7 +399,7 @@ func engSchema(e *Env) {
 				// B follows with probability 0.4, but always stays at least one patch behind
 				if bPatches < poolAt-1 && r.Chance(40) {
 					g := evPool[bPatches]
-					if err := b.patch(ctx, g, true); err != nil {
+					if err := b.patch(ctx, g, r.Chance(60)); err != nil {
 						e.violate("harness-schema", "patch on B failed: "+err.Error(), replay)
 						bad = true
 						break
@@ -398,7 +430,20 @@ func engSchema(e *Env) {
 				write(a, false)
 				checkView(a, "after an update", docsOf(a, mergedA))
 			case c < 9:
-				write(b, r.Bool())
+				if len(b.versions) > 1 && r.Chance(40) {
+					// the peer switches its active version as well (after it has merged commits under another one)
+					to := r.Intn(len(b.versions))
+					if err := b.x.n.DB.SetActiveSchemaVersion(ctx, b.vids[to]); err != nil {
+						e.violate("schema-switch-failed", "B: "+err.Error(), replay)
+						bad = true
+						break
+					}
+					b.active = to
+					desc = append(desc, fmt.Sprintf("B: set active version %d of %d", to, len(b.versions)))
+					nontrivial = true
+				} else {
+					write(b, r.Bool())
+				}
 			default:
 				exchange()
 				if !bad {
